@@ -11,6 +11,6 @@ m=json.load(open(sys.argv[1]))
 out={"property":sys.argv[3],"title":m.get("title"),"breaks":m.get("explanation"),"needs":m.get("needs"),
  "demo_dir":m.get("demo_dir"),"demo_run":m.get("demo_run"),
  "confirmed":{"how":"tools/verify_seed.sh in a scratch worktree of /repo HEAD: git apply patch.diff; full suite; copy seed_demo_test.go into demo_dir; go test -run TestSeedDemo with the patch; git checkout; same test without the patch","result":sys.argv[4]},
- "source":"independent sub-agent (second or third round) given only the property text and a scratch worktree"}
+ "source":"independent sub-agent (later round) given only the property text and a scratch worktree"}
 json.dump(out,open(sys.argv[2],"w"),indent=1)
 PY
